@@ -12,6 +12,8 @@ from pyvc.mrun import ClusterTask
 from pyvc.values import *   # noqa
 from .common import make_registry, install_trace_funcs, register_classes
 
+from .mailbox_ready import CLUSTER_READY
+
 PROP = "C09"
 
 CONTRACTS = [
@@ -72,7 +74,7 @@ def select(name):
 
 def tasks():
     import os
-    nocl = bool(os.environ.get('VERIF_NO_CLUSTER'))
+    nocl = (not CLUSTER_READY) or bool(os.environ.get('VERIF_NO_CLUSTER'))
     return [ContractTask(c, regf) for c in CONTRACTS] + \
         ([] if nocl else [ClusterTask("mailbox-cluster", "props.mailbox", "engine", select, "mailbox_history:search")])
 
